@@ -32,6 +32,7 @@ func c02(c *Ctx) {
 	c10R2(c, "R6/C10.R2")
 	c02R7(c, "R7")
 	sState(c, "R8/S-STATE")
+	coreCommitBundle(c, "R9", "S-MATCH")
 }
 
 func c02R1(c *Ctx, rule string) {
